@@ -47,12 +47,39 @@ def code_kind(code):
     return None if k < 0 else k
 
 
+_gstate_cache: dict = {}
+
+
+def code_gstate(code, globs):
+    """Does this function read or write module-level mutable state (a dict /
+    list / set bound at module level, or a `global` assignment)?  Such functions
+    are where process-wide caches and counters live; schedules and abort
+    enumeration concentrate on them."""
+    v = _gstate_cache.get(code)
+    if v is None:
+        import dis
+        v = False
+        try:
+            for ins in dis.get_instructions(code):
+                if ins.opname in ("STORE_GLOBAL", "DELETE_GLOBAL"):
+                    v = True
+                    break
+                if ins.opname == "LOAD_GLOBAL" and isinstance(
+                        globs.get(ins.argval), (dict, list, set)):
+                    v = True
+                    break
+        except Exception:
+            v = False
+        _gstate_cache[code] = v
+    return v
+
+
 class OpTrace:
     """Trace state for one operation on one thread."""
 
     __slots__ = ("steps", "depth", "max_depth", "budget_steps", "budget_depth",
                  "abort_at", "abort_site", "tripped", "digest", "sched", "tid",
-                 "gen_steps", "shared", "abort_at_gen", "last_kind")
+                 "gen_steps", "shared", "abort_at_gen", "last_kind", "gsteps", "gflag")
 
     def __init__(self, budget_steps=400_000, budget_depth=400, abort_at=None,
                  sched=None, tid=0, shared=None, abort_at_gen=None):
@@ -65,6 +92,8 @@ class OpTrace:
         self.abort_at = abort_at
         self.abort_at_gen = abort_at_gen
         self.last_kind = 0
+        self.gsteps = []
+        self.gflag = False
         self.abort_site = None
         self.tripped = None
         self.digest = 0
@@ -91,6 +120,11 @@ class OpTrace:
             self.steps += 1
             if kind == 0:
                 self.gen_steps += 1
+                self.gflag = False
+            else:
+                self.gflag = code_gstate(frame.f_code, frame.f_globals)
+                if self.gflag and len(self.gsteps) < 400:
+                    self.gsteps.append(self.steps)
             self.digest = (self.digest * 1000003 + (self.tid << 40) + (kind << 20)
                            + frame.f_lineno) % M61
             if self.steps == self.abort_at or (
@@ -153,7 +187,7 @@ class Schedule:
         elif self.kind == "uniform":
             self.p = desc["p"]
             self.pg = desc.get("pg", desc["p"])
-        elif self.kind == "centry":
+        elif self.kind in ("centry", "gstate"):
             self.q = desc["q"]
             self.p = desc.get("p", 0.002)
 
@@ -176,9 +210,15 @@ class Schedule:
             return max(runnable, key=lambda t: self.prio[t])
         return self.rng.choice(sorted(runnable))
 
-    def decide(self, gstep, tid, runnable, kind, last_kind=0):
+    def decide(self, gstep, tid, runnable, kind, last_kind=0, gflag=False):
         """return tid to switch to, or None"""
         if len(runnable) < 2:
+            return None
+        if self.kind == "gstate":
+            # pre-empt inside functions that touch module-level mutable state
+            if self.rng.random() < (self.q if gflag else self.p):
+                others = sorted(t for t in runnable if t != tid)
+                return self.rng.choice(others)
             return None
         if self.kind == "centry":
             # pre-empt a thread at the moment generated code calls into the
@@ -261,7 +301,8 @@ class Sched:
                 tr.tripped = "steps"
                 raise Budget("steps")
             return
-        to = self.schedule.decide(self.gstep, tr.tid, self.runnable, kind, tr.last_kind)
+        to = self.schedule.decide(self.gstep, tr.tid, self.runnable, kind, tr.last_kind,
+                                  tr.gflag)
         if to is not None:
             self.switch_log.append([self.gstep, to])
             self.switches += 1
